@@ -67,6 +67,12 @@ TEMPLATES = {
     "import_as": "import math as {A}\n\n{B} = {A}.floor(2.5)\nprint({B})\n",
     "static_extract": "def _{A}(x):\n    return x - 1\n\n\nclass Box:\n    @staticmethod\n    def {A}(x):\n        return x + 1\n\n    def go(self, x):\n        return self.{A}(x) + Box.{A}(x)\n\n\nprint(Box().go(inp()), _{A}(1))\n",
     "dup_funcs": "def {A}(x):\n    y = x + 1\n    return y\n\n\ndef {B}(z):\n    w = z + 1\n    return w\n\n\nprint({A}(inp()), {B}(inp()), {B})\n".replace(", {B})\n", ")\n"),
+    "shadow_local": "{A} = 3\n\n\ndef get_count():\n    {A} = 5\n    return {A}\n\n\nprint(get_count(), {A})\n",
+    "shadow_local2": "{A} = 3\n{B} = 4\n\n\ndef get_count(n):\n    {A} = n + {B}\n    return {A} * 2\n\n\nprint(get_count(inp()), {A}, {B})\n",
+    "shadow_func": "def {A}():\n    return 1\n\n\ndef other(n):\n    {A} = n + 1\n    return {A}\n\n\nprint({A}(), other(inp()))\n",
+    "shadow_param": "{A} = 3\n\n\ndef scale({A}, {B}=2):\n    return {A} * {B}\n\n\nprint(scale(inp()), {A})\n",
+    "shadow_comp": "{A} = 3\n\n\ndef build(n):\n    return [{A} for {A} in range(n)]\n\n\nprint(build(inp() + 3), {A})\n",
+    "shadow_class": "{A} = 3\n\n\nclass Holder:\n    {A} = 7\n\n    def get(self):\n        {B} = self.{A}\n        return {B}\n\n\nprint(Holder().get(), {A})\n",
     "nested_loops": "def main(n):\n    {B} = []\n    for {A} in range(n):\n        inner = [1, 2]\n        {B}.extend(inner)\n    return {B}\n\n\nprint(main(inp() + 3))\n",
 }
 
